@@ -278,13 +278,16 @@ LargeCity ==
           base |-> FSub(FAdd(FC(D(6955, 100)), FScale(D(2616, 100), LogFc(fc))), FC(LMul(D(1382, 100), R(2))))]
     ELSE [on |-> FALSE]
 
-\* relation-only laws, evaluated numerically by the harness in EVERY live state (rel)
+\* relation-only laws, evaluated numerically by the harness in EVERY live state (rel).
+\* "QueryPure": every query above is a stuttering step - it changes neither the object NOR its arguments and may be
+\* repeated: the harness issues every array query with the caller's own float64 ndarray, requires the array to be
+\* bit-identical afterwards, re-uses it for a second identical call and requires the same result.
 QRel ==
   /\ Live /\ UNCHANGED vars
   /\ E([kind |-> "q", op |-> "Rel", pre |-> P, post |-> P, exact |-> Exact,
         slope |-> [w \in WallsOf \ {-1} |-> Slope(w)],
         lc |-> LargeCity,
-        req |-> {"Monotone", "LinearIsDb", "InUnit", "PolicyArrayScalar"}
+        req |-> {"Monotone", "LinearIsDb", "InUnit", "PolicyArrayScalar", "QueryPure"}
                   \cup (IF InvOffered THEN {"InverseId"} ELSE {})])
 
 Next == \/ \E i \in 1..Len(InitArgs) : Construct(i)
